@@ -18,7 +18,7 @@ RULE = ('cases = generated programs over Blob objects on FileStorage+blob_dir an
         'the storage iterator (exactly one file per record, bytes = model), readers get the bytes of their snapshot, nothing '
         'uncommitted is visible, after abort/failed commit the file set equals the one before, committed files keep inode, '
         'size and SHA-1; evaluations = steps; non-trivial = a blob rewritten at least once plus one of {failed commit after '
-        'the blob store, undo, pack removing a blob revision}; distinct by program hash')
+        'the blob store, undo, pack removing a blob revision}; distinct by program hash; later additions: raw calls with a foreign transaction, two transactions undone in one, undo transactions refused at the vote, commits refused for an open blob, committed-file reads (\'c\' mode, committed()), blobs created without data, a second connection with savepointed blobs, pack_keep_old=False, the wrapper over a FileStorage (without its own undo)')
 ASSUMPTIONS = ['the storage iterator is trusted as the listing of blob records still present (after undo and pack)',
                'extra files after an undo of a blob creation are not forbidden by the statement']
 BUDGET = {'quick': {'examples': 12000, 'workers': 8},
